@@ -5,6 +5,7 @@ mod gen_confchange;
 mod gen_inflights;
 mod gen_memstorage;
 mod gen_quorum;
+mod gen_rawnode;
 mod gen_raftlog;
 mod rng;
 
@@ -27,11 +28,19 @@ fn replay(path: &str, out: &mut dyn Write) -> u64 {
     let mut cc = gen_confchange::Exec::default();
     let mut rl = gen_raftlog::Exec::default();
     let mut ms = gen_memstorage::Exec::default();
+    let mut rw = gen_rawnode::Exec::default();
     let mut n = 0;
     for line in text.lines() {
         let lhs = line.split(" -> ").next().unwrap_or("");
         let toks: Vec<&str> = lhs.split_whitespace().collect();
         if toks.is_empty() || toks[0].starts_with('#') {
+            continue;
+        }
+        if toks[0] == "rw" {
+            // the raft effect after `;` is recomputed from the real node
+            let (lhs2, obs) = rw.exec(&toks[1..]);
+            writeln!(out, "rw {} -> {}", lhs2, obs).unwrap();
+            n += 1;
             continue;
         }
         let obs = match toks[0] {
@@ -185,6 +194,7 @@ fn real_main() {
                 gen_memstorage::random(seed ^ (arg::<u64>(&args, "--stream", 0) << 32), arg(&args, "--cases", 3000), arg(&args, "--len", 25), &mut out)
             }
         }
+        "rawnode" => gen_rawnode::random(seed, arg(&args, "--cases", 300), arg(&args, "--len", 120), &mut out),
         "cluster" => cluster(&args, seed, &mut out),
         "replay" => replay(args.get(2).expect("replay <file>"), &mut out),
         _ => {
